@@ -7,8 +7,15 @@
 //!      (upper-triangular adjacency, every node has a parent) x link widths x
 //!      size alphabet {10, 40000, 65530};
 //!  (b) seeded random DAGs up to 40 nodes (sharing, multi-links, adjustments);
-//!  (c) real GPOS PairPos / MarkBasePos lookups at 1x-4x the 64 KiB limit.
-//! Oracle: `spec::resolve` (graphs), read-back + rule multiset (GPOS).
+//!  (b') graphs of a few 1-16 MiB objects whose total size crosses 2^24 bytes,
+//!      24-bit distances snapped to 0xFFFFFF -2..+2 (big.rs);
+//!  (c) real GPOS PairPos / MarkBasePos lookups at 1x-4x the 64 KiB limit, every
+//!      covered glyph set drawn from a family of run shapes and coverage formats,
+//!      plus a boundary-adapted variant that puts range-record boundaries around
+//!      the split points just observed (gpos.rs).
+//! Oracle: `spec::resolve` (graphs); GPOS: every input glyph is looked up through
+//! the output coverage tables, is covered by exactly one output subtable and
+//! reaches its own pair set / class record / anchors with every input value.
 //!
 //! Known defect (open finding): `Graph::isolate_subgraph_hb` re-links the wide
 //! parents of a duplicated space root by iterating the *duplicate's* (empty)
@@ -16,6 +23,7 @@
 //! descendants also has a live parent, `sort_shortest_distance` never sees all
 //! of that descendant's incoming edges and panics "cycle or something?".
 
+pub mod big;
 pub mod gpos;
 pub mod spec;
 
@@ -47,9 +55,19 @@ pub fn run(ctx: &mut Ctx, _args: &Args) {
     ];
     let _ = hooks::take_trace();
 
+    let t0 = ctx.elapsed_s();
     exhaustive(ctx);
+    let t1 = ctx.elapsed_s();
     random_graphs(ctx);
+    let t2 = ctx.elapsed_s();
+    big::run(ctx);
+    let t3 = ctx.elapsed_s();
     gpos::run(ctx);
+    let t4 = ctx.elapsed_s();
+    ctx.extra.insert(
+        "workload_seconds_this_shard".into(),
+        json!({"exhaustive": t1 - t0, "random": t2 - t1, "big24": t3 - t2, "gpos": t4 - t3}),
+    );
 }
 
 // ---------------------------------------------------------------- one graph case
@@ -285,7 +303,7 @@ fn dstr(v: &[u8]) -> String {
 
 /// Does some plain topological order (no duplication) satisfy all widths?
 /// Evidence only: how incomplete the heuristic is. n <= 5.
-fn layout_exists(spec: &Spec) -> bool {
+pub(crate) fn layout_exists(spec: &Spec) -> bool {
     let n = spec.nodes.len();
     let mut perm: Vec<usize> = (1..n).collect();
     let mut ok = false;
